@@ -1545,7 +1545,16 @@ class Exec(object):
                 val[k] = pv.fields["val"][k]
             elif pv is None:
                 has[k] = z3.BoolVal(False)
-                val[k] = fresh(ty, "np_" + k, assume=assume)
+                # an absent option has no value the callee could read; a canonical placeholder (instead of a fresh
+                # constant) keeps results that are named by uninterpreted functions of the arguments functional
+                if isinstance(ty, TStr):
+                    val[k] = VStr(z3.StringVal(""))
+                elif isinstance(ty, TInt):
+                    val[k] = VInt(z3.IntVal(0))
+                elif isinstance(ty, TBool):
+                    val[k] = VBool(z3.BoolVal(False))
+                else:
+                    val[k] = fresh(ty, "np_" + k, assume=assume)
             else:
                 raise Unsupported("callee option %r is not declared for the caller's **params" % k)
         for k in extra:
